@@ -169,8 +169,11 @@ def run_from_dict(ctx):
     rng = ctx.rng
     classes = [LaserPath, Waveguide, NasuWaveguide, Marker, RasterImage, TrenchColumn, UTrenchColumn]
     items = []
-    for i in range(ctx.n(200, 3000)):
-        cls = rng.choice(classes)
+    # the first calls of the process go through the classes base class first (LaserPath, then Waveguide / Marker / ..., then
+    # their subclasses), each with the whole pool: whatever a class remembers from its first use must not leak into a subclass
+    first = sorted(classes, key=lambda c: len(c.__mro__))
+    for i in range(len(first) + ctx.n(200, 3000)):
+        cls = first[i] if i < len(first) else rng.choice(classes)
         names = list(inspect.signature(cls).parameters)
         param = {}
         pool = {'scan': 3, 'speed': 12.5, 'radius': 20, 'depth': 0.1, 'x_center': 1.0, 'y_min': 0.0, 'y_max': 2.0, 'bridge': 0.03, 'nboxz': 2,
@@ -178,7 +181,7 @@ def run_from_dict(ctx):
                 '_x': np.array([0.0, 1.0], dtype=np.float32), '_y': np.array([0.0, 0.0], dtype=np.float32), '_z': np.array([0.0, 0.0], dtype=np.float32),
                 '_f': np.array([1.0, 1.0], dtype=np.float32), '_s': np.array([0.0, 1.0], dtype=np.float32),
                 'extra_key': 1, 'filename': 'x.pgm', 'laser': 'UWE', 'Speed': 99, 'unknown': None}
-        for k in rng.sample(sorted(pool), rng.randint(3, 12)):
+        for k in (sorted(pool) if i < len(first) else rng.sample(sorted(pool), rng.randint(3, 12))):
             param[k] = pool[k]
         if cls in (TrenchColumn, UTrenchColumn):
             param.update(x_center=1.0, y_min=0.0, y_max=2.0)
